@@ -13,8 +13,8 @@
    Part 5  the pipeline of compiler.go for a file set: first error per file
    Definitions only. *)
 From Coq Require Import List NArith ZArith Bool Arith.
-From PV Require Import Model.MiniProto Model.Lower.
-From PV Require Model.Resolve.
+From PV Require Import Model.MiniProto Model.Lower Model.ValiditySpec Model.ProtocDescriptor.
+From PV Require Model.Resolve Model.ProtocLookup.
 Import ListNotations.
 Open Scope Z_scope.
 
@@ -345,8 +345,34 @@ Fixpoint find_sym (n : name) (ss : list sym) : option sym :=
 Definition all_visible_syms (cs : list cfile) (d : dfile) : list sym :=
   file_syms d ++ flat_map cf_syms (visible_deps cs d).
 
+(* ---- which reading of the rules: the Go code as it is, or protoc (Model/SpecOracle.v) ----
+   go_cfg is the mirror of the code.  The other settings are the points where the repository
+   documents that protoc behaves differently, plus the choice of the lookup algorithm (the Go scope
+   walk, or protoc's LookupSymbol as specified in Model/ProtocLookup.v, equal by C15). *)
+Record cfg := mkCfg {
+  c_spec_lookup : bool;      (* resolve names with Spec.lookup instead of go_resolve *)
+  c_protoc_json : bool       (* JSON-name conflicts as protoc's CheckFieldJsonNameUniqueness *)
+}.
+Definition go_cfg : cfg := mkCfg false false.
+
+Definition sres_to_gres (r : ProtocLookup.Spec.sres) : Resolve.gres :=
+  match r with
+  | ProtocLookup.Spec.SNone | ProtocLookup.Spec.SOutOfFuel => Resolve.GNil
+  | ProtocLookup.Spec.SFound n (ProtocLookup.Spec.SK k) => Resolve.GDesc n k
+  | ProtocLookup.Spec.SFound n ProtocLookup.Spec.SKPackage => Resolve.GSentinel n
+  | ProtocLookup.Spec.SUndefined n => Resolve.GSentinel n
+  end.
+
+(* result.resolve(name, onlyTypes, scopes) for a reference held by element [elem] inside the
+   messages [path] *)
+Definition resolve_ref (c : cfg) (U : Resolve.universe) (path : list name) (elem nm : name) (onlyTypes : bool) : Resolve.gres :=
+  if c_spec_lookup c
+  then sres_to_gres (ProtocLookup.Spec.lookup U (ProtocLookup.relative_to U path elem) nm
+                       (if onlyTypes then ProtocLookup.Spec.LookupTypes else ProtocLookup.Spec.LookupAll))
+  else Resolve.go_resolve U path nm onlyTypes.
+
 (* ---- resolveFieldTypes ---- *)
-Record lctx := mkLCtx { lc_files : list cfile; lc_self : dfile; lc_U : Resolve.universe;
+Record lctx := mkLCtx { lc_cfg : cfg; lc_files : list cfile; lc_self : dfile; lc_U : Resolve.universe;
                         lc_vis : list sym }.
 
 Definition info_of (L : lctx) (n : name) : sinfo :=
@@ -368,13 +394,13 @@ Definition resolve_extendee (L : lctx) (path : list name) (X : extnums) (fd : df
   : dfield * extnums * list ecls * bool :=
   match df_extendee fd with
   | Some ((_ :: _) as x) =>
-    match Resolve.go_resolve (lc_U L) path x false with
+    match resolve_ref (lc_cfg L) (lc_U L) path (df_name fd) x false with
     | Resolve.GNil | Resolve.GSentinel _ => (fd, X, [EExtendeeUnknown], true)
     | Resolve.GDesc n Resolve.KMessage =>
       let fd1 := set_extendee fd (dotc :: n) in
       let rs := match info_of L n with IMsg mi => mi_extr mi | _ => [] end in
       if existsb (in_half_open (df_number fd)) rs then
-        if ext_mem n (df_number fd) X then (fd1, X, [ESymbolDup], true)
+        if ext_mem n (df_number fd) X then (fd1, X, [ESymbolDup], false)
         else (fd1, (n, df_number fd) :: X, [], false)
       else (fd1, X, [EExtTagNotInRange], false)
     | Resolve.GDesc _ _ => (fd, X, [EExtendeeNotMessage], true)
@@ -386,7 +412,7 @@ Definition resolve_extendee (L : lctx) (path : list name) (X : extnums) (fd : df
 Definition resolve_type (L : lctx) (path : list name) (fd : dfield) : dfield * list ecls :=
   match df_type_name fd with
   | Some ((_ :: _) as tn) =>
-    match Resolve.go_resolve (lc_U L) path tn true with
+    match resolve_ref (lc_cfg L) (lc_U L) path (df_name fd) tn true with
     | Resolve.GNil | Resolve.GSentinel _ => (fd, [ETypeUnknown])
     | Resolve.GDesc n Resolve.KMessage =>
       let isentry := match info_of L n with IMsg mi => mi_mapentry mi | _ => false end in
@@ -468,8 +494,8 @@ Fixpoint resolve_msgs (L : lctx) (X : extnums) (ms : list dmsg) : list dmsg * ex
   end.
 
 (* resolveMethodTypes *)
-Definition resolve_rpc_type (L : lctx) (svc : name) (t : name) : name * list ecls :=
-  match Resolve.go_resolve (lc_U L) [svc] t false with
+Definition resolve_rpc_type (L : lctx) (svc mtd : name) (t : name) : name * list ecls :=
+  match resolve_ref (lc_cfg L) (lc_U L) [svc] mtd t false with
   | Resolve.GNil | Resolve.GSentinel _ => (t, [EMethodTypeUnknown])
   | Resolve.GDesc n Resolve.KMessage => (dotc :: n, [])
   | Resolve.GDesc _ _ => (t, [EMethodTypeNotMessage])
@@ -477,14 +503,14 @@ Definition resolve_rpc_type (L : lctx) (svc : name) (t : name) : name * list ecl
 
 Definition resolve_service (L : lctx) (s : dservice) : dservice * list ecls :=
   let rs := map (fun m =>
-                   let '(i, e1) := resolve_rpc_type L (ds_name s) (rpc_in m) in
-                   let '(o, e2) := resolve_rpc_type L (ds_name s) (rpc_out m) in
+                   let '(i, e1) := resolve_rpc_type L (ds_name s) (rpc_name m) (rpc_in m) in
+                   let '(o, e2) := resolve_rpc_type L (ds_name s) (rpc_name m) (rpc_out m) in
                    (mkRpc (rpc_name m) i o (rpc_cs m) (rpc_ss m), e1 ++ e2)) (ds_methods s) in
   (mkDService (ds_name s) (map fst rs), flat_map snd rs).
 
 (* resolveReferences *)
-Definition resolve_file (cs : list cfile) (X : extnums) (d : dfile) : dfile * extnums * list ecls :=
-  let L := mkLCtx cs d (universe_of cs d) (all_visible_syms cs d) in
+Definition resolve_file (c : cfg) (cs : list cfile) (X : extnums) (d : dfile) : dfile * extnums * list ecls :=
+  let L := mkLCtx c cs d (universe_of cs d) (all_visible_syms cs d) in
   let '(msgs, X1, e1) := resolve_msgs L X (dfl_msgs d) in
   let '(exts, X2, e2) := resolve_fields L [] true X1 (dfl_exts d) in
   let svcs := map (resolve_service L) (dfl_services d) in
@@ -616,8 +642,8 @@ Fixpoint options_msg (L : lctx) (m : dmsg) : dmsg * list ecls :=
   end.
 
 (* interpretFileOptions: messages, then file-level extensions *)
-Definition options_file (cs : list cfile) (d : dfile) : dfile * list ecls :=
-  let L := mkLCtx cs d (universe_of cs d) (all_visible_syms cs d) in
+Definition options_file (c : cfg) (cs : list cfile) (d : dfile) : dfile * list ecls :=
+  let L := mkLCtx c cs d (universe_of cs d) (all_visible_syms cs d) in
   let ms := map (options_msg L) (dfl_msgs d) in
   let '(x1, e2) := map_fields_errs (pseudo_options L) (dfl_exts d) in
   (mkDFile (dfl_name d) (dfl_package d) (dfl_syntax d) (dfl_deps d) (dfl_public d) (dfl_weak d)
@@ -668,6 +694,9 @@ Definition json_conflict_errs (compliant : bool) (fs : list dfield) : list ecls 
   flat_map (fun b : bool => if b then [EJsonConflict] else [])
            (json_loop compliant false [] fs ++ json_loop compliant true [] fs).
 
+(* the projection of a field that protoc's JSON check looks at (Model/ValiditySpec.v) *)
+Definition jf_of (fd : dfield) : jfield := (df_name fd, df_json fd, has_custom_json fd).
+
 (* validateJSONNamesInEnum *)
 Fixpoint enum_json_loop (compliant : bool) (ename : name) (seen : list (name * Z)) (vs : list (name * Z)) : list ecls :=
   match vs with
@@ -714,15 +743,18 @@ Definition validate_field_link (L : lctx) (fd : dfield) : list ecls :=
 Fixpoint validate_msg_link (L : lctx) (m : dmsg) : list ecls :=
   match m with
   | DMsg _ fields nested enums exts _ _ _ _ _ _ =>
-    json_conflict_errs (json_compliant (dfl_syntax (lc_self L))) fields
+    (if c_protoc_json (lc_cfg L)
+     then map (fun _ => EJsonConflict)
+              (protoc_json_errors to_json_name (json_compliant (dfl_syntax (lc_self L))) (map jf_of fields))
+     else json_conflict_errs (json_compliant (dfl_syntax (lc_self L))) fields)
     ++ flat_map (validate_field_link L) fields
     ++ flat_map (validate_msg_link L) nested
     ++ flat_map (validate_enum_link (dfl_syntax (lc_self L))) enums
     ++ flat_map (validate_field_link L) exts
   end.
 
-Definition validate_options (cs : list cfile) (d : dfile) : list ecls :=
-  let L := mkLCtx cs d (universe_of cs d) (all_visible_syms cs d) in
+Definition validate_options (c : cfg) (cs : list cfile) (d : dfile) : list ecls :=
+  let L := mkLCtx c cs d (universe_of cs d) (all_visible_syms cs d) in
   flat_map (validate_msg_link L) (dfl_msgs d)
   ++ flat_map (validate_enum_link (dfl_syntax d)) (dfl_enums d)
   ++ flat_map (validate_field_link L) (dfl_exts d).
@@ -750,16 +782,16 @@ Definition compile_file (st : cstate) (f : sfile) : cstate * fres :=
       match import_result (st_tab st) d with
       | (T, e :: _) => fail (mkCState T (st_exts st) (st_done st) (st_failed st)) (FErr e)
       | (T, []) =>
-        let '(d1, X, e2) := resolve_file (st_done st) (st_exts st) d in
+        let '(d1, X, e2) := resolve_file go_cfg (st_done st) (st_exts st) d in
         let st1 := mkCState T X (st_done st) (st_failed st) in
         match e2 with
         | e :: _ => fail st1 (FErr e)
         | [] =>
-          let '(d2, e3) := options_file (st_done st) d1 in
+          let '(d2, e3) := options_file go_cfg (st_done st) d1 in
           match e3 with
           | e :: _ => fail st1 (FErr e)
           | [] =>
-            match validate_options (st_done st) d2 with
+            match validate_options go_cfg (st_done st) d2 with
             | e :: _ => fail st1 (FErr e)
             | [] => (mkCState T X (st_done st ++ [mkCFile (sf_name f) d2 (file_syms d2)]) (st_failed st), FOk d2)
             end
